@@ -62,6 +62,7 @@ def full_alphabet():
     evs += bare_table_events(True)
     evs += [["ext", "ok"], ["ext", "fail"]]
     evs += [["init", e, "public"] for e in H.CLONE_ENTRIES]
+    evs += [["ambient", "warnerr"]]
     return evs
 
 
@@ -212,6 +213,10 @@ def task_singles(ctx, par):
     alpha = full_alphabet()
     canon = get_canon(ctx)
     sweep(ctx, [[e] for e in alpha], canon, par)
+    # every import / init / calculator / extension event as the first touch in a process where warnings are errors
+    # (pbt/ambient.py 'warnerr'): a warning issued half-way through a loader must not leave the group half loaded
+    we = ["ambient", "warnerr"]
+    sweep(ctx, [[we, e] for e in alpha if e[0] in ("import", "init", "calc", "ext")], canon, par)
     ctx.extra["alphabet"] = len(alpha)
 
 
